@@ -85,11 +85,11 @@ theorem de_ser : ∀ (s : Schema) (v : Val), wf s = true → hasType s v = true 
         simp only [ser, de, if_pos hO, hd]; simp
       · simp only [ser, de, if_pos hO, hd, hf]; simp
   | .untagged alts, v, hw, ht => by
-      simp only [wf, Bool.and_eq_true] at hw
+      simp only [wf] at hw
       cases v <;> simp [hasType] at ht
       rename_i i x
-      have h1 := deAlt_ser alts i x hw.1 ht
-      have := deUntagged_found alts i x 0 hw.2 ht (by rw [serAlt_eq' alts i x ht]; exact h1)
+      have h1 := deAlt_ser alts i x hw ht.1
+      have := deUntagged_found alts i x (serAlt alts i x) 0 ht.2 ht.1 (by rw [serAlt_eq' alts i x ht.1]; exact h1)
       simpa [ser, de] using this
   | .adjacent t c alts, v, hw, ht => by
       simp only [wf, Bool.and_eq_true, decide_eq_true_eq] at hw
